@@ -26,6 +26,7 @@ func init() {
 			}, MinSites: 3},
 			{ID: "C18.1", Desc: "under rq.only-if-cached=T no upstream call and no spawn reaching one", Run: ruleC18_1, MinSites: 1},
 			{ID: "C18.2", Desc: "under rq.only-if-cached=T every outcome is a stored response or the synthesised 504", Run: ruleC18_2, MinSites: 1},
+			{ID: "C18.4", Desc: "the directive list is tokenised to its end (an empty element does not hide a later only-if-cached)", Run: func(c *Ctx) { ruleC12_5(c); renameRule(c, "C12.5", "C18.4") }, MinSites: 1},
 			{ID: "C18.3", Desc: "the request's Cache-Control is read through all of its field lines (only-if-cached on a second line counts)", Run: func(c *Ctx) { ruleRLIST(c, "C18.3", "Cache-Control") }, MinSites: 1},
 		},
 	})
